@@ -15,6 +15,8 @@ def run(prop, propmod):
         extra, selfcheck_errors = corpus.validate(prop, propmod, an)
     except ImportError:
         extra, selfcheck_errors = {'selftest': 'corpus not built yet'}, []
+    extra = dict(extra)
+    extra['selftest_wall_s'] = round(time.time() - t0, 2)
     code, ctx, new, hits = report.run_property(propmod, an, 'thorough', write=True, extra=extra)
     for e in selfcheck_errors:
         print(f'ANALYSIS-ERROR property={prop} selftest: {e}')
